@@ -155,4 +155,31 @@ theorem ranked_sound_aux (h : Heap) :
       have e : k + (i + 1) = k + 1 + i := by omega
       rw [e]; exact this
 
+/-! ### recover scopes -/
+
+theorem entry_scope_required (e : Entry) : e.scope ∈ requiredRecovers := by
+  cases e <;> simp [Entry.scope, requiredRecovers]
+
+theorem enter_not_killed (scopes : List String)
+    (h : requiredRecovers.all (scopes.contains ·) = true) (e : Entry) (b : Body) :
+    (enter scopes e b).isKilled = false := by
+  cases b with
+  | returns => rfl
+  | panics w =>
+    have hc : scopes.contains e.scope = true := by
+      rw [List.all_eq_true] at h
+      exact h _ (entry_scope_required e)
+    show (if scopes.contains e.scope = true then ProcRes.error ("panic: " ++ w)
+      else ProcRes.killed w).isKilled = false
+    rw [if_pos hc]
+    rfl
+
+theorem exec_not_killed (scopes : List String)
+    (h : requiredRecovers.all (scopes.contains ·) = true) (x : Exec) :
+    x.killed scopes = false := by
+  unfold Exec.killed
+  rw [enter_not_killed scopes h, Bool.false_or, List.any_eq_false]
+  intro b _
+  simp [enter_not_killed scopes h]
+
 end Risor.C03
